@@ -71,7 +71,13 @@ def classify(res, gen_lines):
                 # but only when the span line itself has none and is a continuation (no trailing comma)
                 if not mo and ("failed this" in label or "failed pre" in label):
                     k = ln
-                    while k < len(gen_lines) and k < ln + 8 and not gen_lines[k - 1].rstrip().endswith(",") and "OBL:" not in gen_lines[k - 1]:
+                    depth = 0
+                    def _d(t):      # bracket depth change of one line (comments cut off)
+                        t = t.split("//")[0]
+                        return sum(t.count(c) for c in "([{") - sum(t.count(c) for c in ")]}")
+                    while k < len(gen_lines) and k < ln + 14 and "OBL:" not in gen_lines[k - 1]:
+                        depth += _d(gen_lines[k - 1])
+                        if depth <= 0 and gen_lines[k - 1].split("//")[0].rstrip().endswith(","): break
                         k += 1
                     if 0 < k <= len(gen_lines):
                         mo = OBL_RE.search(gen_lines[k - 1])
